@@ -267,7 +267,8 @@ def check(facts):
         if not (1 <= rt <= b.argc):
             return None, None
         return rt, [x["f"] for x in pr if isinstance(x, dict) and "f" in x]
-    entries = [n for n in facts.body_names() if n.startswith("api::Regex::find_from")]
+    entries = [n for n in facts.body_names() if n.startswith("api::Regex::find_from") or
+               (n.startswith("api::backends::find") and n != "api::backends::find" and "{closure" not in n)]
     n_entry = 0
     for fn in sorted(entries):
         b = facts.body(fn)
@@ -275,7 +276,7 @@ def check(facts):
         for bb, t in b.iter_calls():
             cal = t.get("callee") or ""
             want = None
-            if cal == "api::backends::find":
+            if cal == "api::backends::find" or (cal.startswith("api::backends::find") and fn.startswith("api::backends::")):
                 want = [(1, "text"), (2, "start")]
             elif cal.startswith("exec::Matches::<") and cal.endswith("::new"):
                 want = [(1, "start")]
@@ -429,6 +430,41 @@ def check(facts):
                    and root(b, t["args"][1]) == root(b, att[0][1]["args"][3])]
             if not adv:
                 probs.append("a failed attempt does not advance the start by next_right_pos(pos)")
+            # every value the attempt position takes comes from the initial position, the prefilter or next_right_pos: a step by code
+            # units (try_move_right(pos, 1)) lands between the halves of a surrogate pair / inside a UTF-8 sequence
+            from . import backref as _br
+            pl_ = root(b, att[0][1]["args"][3])
+            if pl_ is not None:
+                srcs = set()
+                seen_ = set()
+
+                def walk_(l_, depth_=0):
+                    if (l_, "v") in seen_ or depth_ > 12:
+                        return
+                    seen_.add((l_, "v"))
+                    for _bi, _si, _kind, _pay in b.defs().get(l_, []):
+                        if _kind == "call":
+                            cal_ = _pay.get("callee") or "?"
+                            if cal_.split("::")[-1] in ("branch", "from_residual", "from_output"):
+                                for a_ in _pay["args"]:
+                                    if a_.get("k") in ("copy", "move"):
+                                        walk_(a_["pl"]["l"], depth_ + 1)
+                            else:
+                                srcs.add(("call", cal_))
+                        else:
+                            _rv = _pay["rv"]
+                            for _k in ("op", "a", "b"):
+                                _o = _rv.get(_k)
+                                if isinstance(_o, dict) and _o.get("k") in ("copy", "move") and _o["pl"]["l"] != pl_:
+                                    walk_(_o["pl"]["l"], depth_ + 1)
+                            if _rv["k"] in ("ref", "discr") and _rv["pl"]["l"] != pl_:
+                                walk_(_rv["pl"]["l"], depth_ + 1)
+                walk_(pl_)
+                odd = sorted({s_[1].split("::")[-1] for s_ in srcs if s_[0] in ("call", "outcome") and len(s_) > 1
+                              and s_[1].split("::")[-1] not in ("next_right_pos", "find_bytes", "branch", "from_residual", "add", "offset_to_pos",
+                                                                "pos_to_offset", "left_end")})
+                if odd:
+                    probs.append("the attempt position is also advanced through %s (not by whole characters)" % odd)
         if probs:
             r.fail(key, "; ".join(probs), facts.loc(fn))
         else:
